@@ -23,6 +23,24 @@ impl<F: linfa::Float> Distance<F> for ScaledL1 {
         d + d
     }
 }
+/// The opposite scaling (rdistance = L1 / 2): a forgotten or doubled conversion now *under*estimates.
+#[derive(Clone, Debug, PartialEq)]
+struct HalfL1;
+impl<F: linfa::Float> Distance<F> for HalfL1 {
+    fn distance<D: ndarray::Dimension>(&self, a: ndarray::ArrayView<F, D>, b: ndarray::ArrayView<F, D>) -> F {
+        ndarray::Zip::from(&a).and(&b).fold(F::zero(), |acc, &x, &y| acc + (x - y).abs())
+    }
+    fn rdistance<D: ndarray::Dimension>(&self, a: ndarray::ArrayView<F, D>, b: ndarray::ArrayView<F, D>) -> F {
+        let d: F = Distance::<F>::distance(self, a, b);
+        d / F::cast(2.0)
+    }
+    fn rdist_to_dist(&self, r: F) -> F {
+        r + r
+    }
+    fn dist_to_rdist(&self, d: F) -> F {
+        d / F::cast(2.0)
+    }
+}
 /// Euclidean metric with the same structure as `L2Dist` (squared distance as reduced distance, sqrt /
 /// powi conversions) but computed on the scalar itself instead of through `ndarray_stats::l2_dist`,
 /// which converts to f64 and would concretise symbolic coordinates.
@@ -57,7 +75,7 @@ fn rdist<F: Scalar>(metric: usize, a: &[F], b: &[F]) -> F {
     for j in 0..a.len() {
         let d = a[j] - b[j];
         match metric {
-            1 | 4 => s = s + num_traits::Float::abs(d),
+            1 | 4 | 6 => s = s + num_traits::Float::abs(d),
             2 | 5 => s = s + d * d,
             _ => s = num_traits::Float::max(s, num_traits::Float::abs(d)),
         }
@@ -65,17 +83,20 @@ fn rdist<F: Scalar>(metric: usize, a: &[F], b: &[F]) -> F {
     if metric == 4 {
         s = s + s;
     }
+    if metric == 6 {
+        s = s / F::lit(2.0);
+    }
     s
 }
 
-fn points<F: Scalar>(n: usize, d: usize, b: i64) -> (Array2<F>, Array1<F>) {
+fn points_s<F: Scalar>(n: usize, d: usize, b: i64, shift: u32) -> (Array2<F>, Array1<F>) {
     let mut pts = Array2::from_elem((n, d), F::lit(0.0));
     for i in 0..n {
         for j in 0..d {
-            pts[(i, j)] = int::<F>(&format!("p{}_{}", i, j), -b, b);
+            pts[(i, j)] = grid::<F>(&format!("p{}_{}", i, j), b, shift);
         }
     }
-    let q = Array1::from_iter((0..d).map(|j| int::<F>(&format!("q{}", j), -b, b)));
+    let q = Array1::from_iter((0..d).map(|j| grid::<F>(&format!("q{}", j), b, shift)));
     (pts, q)
 }
 
@@ -92,6 +113,7 @@ fn query_knn<F: Scalar>(kind: usize, metric: usize, leaf: usize, pts: &Array2<F>
         2 => go!(L2Dist),
         4 => go!(ScaledL1),
         5 => go!(SymL2),
+        6 => go!(HalfL1),
         _ => go!(LInfDist),
     }
 }
@@ -109,6 +131,7 @@ fn query_range<F: Scalar>(kind: usize, metric: usize, leaf: usize, pts: &Array2<
         2 => go!(L2Dist),
         4 => go!(ScaledL1),
         5 => go!(SymL2),
+        6 => go!(HalfL1),
         _ => go!(LInfDist),
     }
 }
@@ -118,7 +141,7 @@ fn query_range<F: Scalar>(kind: usize, metric: usize, leaf: usize, pts: &Array2<
 fn knn<F: Scalar>(p: &Params) {
     let (n, d, k) = (p.u("n", 3), p.u("d", 1), p.u("k", 1));
     let (kind, metric, leaf, b) = (p.u("kind", 0), p.u("metric", 1), p.u("leaf", 1), p.get("B", 1024));
-    let (pts, q) = points::<F>(n, d, b);
+    let (pts, q) = points_s::<F>(n, d, b, p.u("shift", 0) as u32);
     let res = query_knn(kind, metric, leaf, &pts, &q, k);
     check_bool("knn.len == min(k,n)", res.len() == k.min(n));
     let mut seen = vec![false; n];
@@ -165,11 +188,11 @@ fn range<F: Scalar>(p: &Params) {
         -1 => vec![0, 1, 2],
         x => vec![x as usize],
     };
-    let (pts, q) = points::<F>(n, d, b);
+    let (pts, q) = points_s::<F>(n, d, b, p.u("shift", 0) as u32);
     let r = int::<F>("radius", 0, 2 * b * d as i64 + 1);
     let qv = q.to_vec();
     // reduced radius on the harness side
-    let rr = if metric == 2 || metric == 5 { r * r } else if metric == 4 { r + r } else { r };
+    let rr = if metric == 2 || metric == 5 { r * r } else if metric == 4 { r + r } else if metric == 6 { r / F::lit(2.0) } else { r };
     let mut sets: Vec<Vec<bool>> = vec![];
     for &kind in &kinds {
         let res = query_range(kind, metric, leaf, &pts, &q, r);
